@@ -191,6 +191,8 @@ pub fn each(tier: Tier, f: &mut dyn FnMut(Case) -> bool) -> bool {
     // depth at run time: recursion, values nested by a loop and then shown, compared, converted, released
     let runtime: Vec<(&'static str, Gen)> = vec![
         ("iterations", Box::new(|n| (format!("stel i = 0; zolang i < {n} {{ i += 1 }} i"), Some(n.to_string())))),
+        ("returns-that-free", Box::new(|n| (format!("functie f(x) {{ stel t = 1.5 * 2.0; antwoord x + 1 }} stel i = 0; zolang i < {n} {{ i = f(i) }} i"), Some(n.to_string())))),
+        ("returns-that-free-nothing", Box::new(|n| (format!("functie f(x) {{ antwoord x + 1 }} stel i = 0; zolang i < {n} {{ i = f(i) }} i"), Some(n.to_string())))),
         ("recursion", Box::new(|n| (format!("functie f(n) {{ als n == 0 {{ antwoord 0 }} 1 + f(n - 1) }} f({n})"), None))),
         ("deep-value-measured", Box::new(|n| (format!("stel a = []; stel i = 0; zolang i < {n} {{ a = [a]; i += 1 }} lengte(a)"), Some("1".to_string())))),
         ("deep-value-shown", Box::new(|n| (format!("stel a = []; stel i = 0; zolang i < {n} {{ a = [a]; i += 1 }} print(a); 0"), None))),
